@@ -145,6 +145,17 @@ func kinds() []*kind {
 		}
 		return []byte(sb.String())
 	}})
+	ks = append(ks, &kind{Name: "grpc/json+chosencases", Type: "grpc/json", File: "/ammo", Extract: nameField, Render: func(e int) []byte {
+		var sb strings.Builder
+		sb.WriteString(`{"tag":"skip","call":"pkg.Svc.M","payload":{}}` + "\n")
+		for i := 0; i < e; i++ {
+			fmt.Fprintf(&sb, `{"tag":"e%d","call":"pkg.Svc.M","payload":{"i":%d}}`+"\n", i, i)
+			sb.WriteString(`{"tag":"other","call":"pkg.Svc.M","payload":{}}` + "\n")
+		}
+		return []byte(sb.String())
+	}, Conf: func(k *kind, limit, passes int) map[string]any {
+		return map[string]any{"type": "grpc/json", "file": k.File, "limit": limit, "passes": passes, "chosencases": []any{"e0", "e1", "e2"}}
+	}})
 	ks = append(ks, &kind{Name: "http/scenario", Type: "http/scenario", File: "/ammo.yaml", Extract: nameField, Conf: plain, Render: func(e int) []byte {
 		var sb strings.Builder
 		sb.WriteString("requests:\n  - name: r\n    method: GET\n    uri: /\nscenarios:\n")
@@ -437,9 +448,9 @@ type c14run struct {
 	cell     C14Cell
 	preload  bool
 	deferred bool
-	drv     *Drv
-	cerr    error
-	stop    int
+	drv      *Drv
+	cerr     error
+	stop     int
 }
 
 func (r *c14run) scenario(x *vs.X) func(end, msg string) error {
